@@ -309,6 +309,7 @@ def check_property(prop, tier="quick", seed=0, only_unit=None, jobs=None, verbos
     bounded = {"jobs": 0, "evaluations": 0, "contract_clauses_evaluated": 0, "units": set()}
     bounded_fail = []
     context_fail = []  # failing obligations that are not clauses of this (cross-cutting) property
+    model_gaps = []  # obligations proved symbolically that fail on a concrete input (value model under-approximates)
     for res in results:
         u = units.UNITS[res["unit"]]
         paths += res["paths"]
@@ -381,10 +382,18 @@ def check_property(prop, tier="quick", seed=0, only_unit=None, jobs=None, verbos
             if len(samples) < 6 and o["status"] == "proved" and o["backend"] != "ground":
                 samples.append({"unit": res["unit"], "skeleton": res["skeleton"], "obligation": o["name"], "path": o["path"], "status": o["status"], "backend": o["backend"]})
         if res.get("conc_fail") and not res["unsupported"] and not any(o["status"] in ("refuted", "undecided") for o in res["obligations"]):
-            # proved symbolically but the concrete contract fires on the real code: unsound engine/primitive
-            f = match_finding(findings, prop, res["unit"], res["conc_fail"]["obligation"], res["skeleton"])
-            if not f:
-                crashes.append((res["unit"], res["skeleton"], "CPython cross-check disagrees with proof: " + json.dumps(res["conc_fail"])[:400]))
+            # proved symbolically but the same contract fires on the real code for a concrete input: the input is a
+            # demonstrated violation (reported as such); that the symbolic run did not see it means the value model
+            # under-approximates this code path (reported as well, so that it gets repaired)
+            cf = res["conc_fail"]
+            f = match_finding(findings, prop, res["unit"], cf["obligation"], res["skeleton"])
+            if f:
+                known_hits.append((f, res["unit"], cf["obligation"], res["skeleton"]))
+            elif not is_clause(prop, u, cf["obligation"], "concrete"):
+                context_fail.append((res["unit"], cf["obligation"]))
+            else:
+                bounded_fail.append((res["unit"], res["skeleton"], cf))
+                model_gaps.append((res["unit"], res["skeleton"], cf["obligation"]))
     if not samples:
         for res in results:
             for o in res["obligations"][:2]:
@@ -459,6 +468,8 @@ def check_property(prop, tier="quick", seed=0, only_unit=None, jobs=None, verbos
         suffix = "" if rp.get("how") in ("solver-model", "directed-search") else " no-failing-input-found"
         lines.append(f"VIOLATION property={prop} replay={path}{suffix}")
         exit_code = 1
+    for uname, sk_, obname in model_gaps[:6]:
+        lines.append(f"MODEL-GAP unit={uname} skeleton={sk_id(sk_)[:100]} obligation={obname}: discharged symbolically, fails on a concrete input of the real code (reported above as a violation with that input)")
     for uname, obname in sorted(set(context_fail))[:12]:
         lines.append(f"NOTE property={prop} unit={uname} obligation={obname} fails but is not a clause of {prop} (a functional postcondition of a shared unit; reported by the property that owns it)")
     shown = set()
@@ -541,6 +552,7 @@ TRUSTED_BASE = [
     "primitive contracts of numpy operations as implemented in fvc/symnp.py (einsum, tile, basic/advanced indexing, ufuncs, reductions, view/copy rules); differential-tested against numpy by the CPython cross-check on every run (bounded)",
     "enumeration contracts: flatten() and pandas MultiIndex.from_product are the same C-order bijection between row numbers and index tuples when their extents agree (COrder); np.nonzero / np.argwhere enumerate exactly the selected index tuples, each once (SelOrder); row-level contracts of pandas DataFrame / set_index / reset_index / from_arrays and of the ~15 table operations of the importer's placement half (fvc/symtable.py) -- assumed, differential-tested against real pandas by the cross-check",
     "CPython semantics of everything that is not symbolic (pydantic construction/validation, containers, control flow) -- executed for real, not modelled",
+    "np.allclose (flodym uses it only to decide whether to log a warning): quick tier -- one unconstrained answer per path, all call sites alike (histories in which two calls answer differently are explored by the thorough tier only); thorough tier -- exact all(isclose) per array contents, 'true => every entry close' not instantiated",
     "float arithmetic treated as real arithmetic (no rounding, overflow, inf, NaN unless a unit says so)",
     "rank / letter-overlap / storage-order / key-form skeletons are enumerated up to the stated bound; within a skeleton all sizes, entries and items are symbolic",
 ]
